@@ -145,6 +145,9 @@ fn c15_allocate_free_reuse_cooldown() {
     cm.set_counter_value(a, stale);
     unsafe { NOW = t1 };
     cm.free(a);
+    // a holder of the freed id may still store into its value slot during the cool-down
+    let late: u64 = kani::any();
+    cm.set_counter_value(a, late);
     assert!(cm.iter().count() <= 2, "C15: iteration bounded");
     unsafe { NOW = t2 };
     match cm.allocate("d") {
